@@ -7,10 +7,10 @@ its style calls are `stylesPats`, and the date formats it renders are `datesPats
 -/
 namespace Log4rs.Pattern.Parse
 
-theorem compileL_append : ∀ (a b : List Piece), compileL (a ++ b) = compileL a ++ compileL b
+theorem compileL_append (B : Build) : ∀ (a b : List Piece), compileL B (a ++ b) = compileL B a ++ compileL B b
   | [], b => by rw [compileL_nil]; rfl
   | x :: a, b => by
-    rw [List.cons_append, compileL_cons, compileL_cons, compileL_append a b]; rfl
+    rw [List.cons_append, compileL_cons, compileL_cons, compileL_append B a b]; rfl
 
 theorem seqOut_ok_nil (x : Outcome Unit Out) : seqOut (.ok []) x = x := by
   cases x <;> simp [seqOut]
@@ -28,9 +28,9 @@ theorem encChunk_text (env : Env) (r : Record) (s : List Char) : encChunk env r 
   rw [encChunk]
 
 /-- pending text in front of pieces -/
-theorem flush_meaning (env : Env) (r : Record) (pre : List Char) (X : List Piece) :
-    encList env r (compileL (flushText pre ++ X)) =
-      seqOut (.ok (ofText pre)) (encList env r (compileL X)) := by
+theorem flush_meaning (B : Build) (env : Env) (r : Record) (pre : List Char) (X : List Piece) :
+    encList env r (compileL B (flushText pre ++ X)) =
+      seqOut (.ok (ofText pre)) (encList env r (compileL B X)) := by
   cases pre with
   | nil => simp [flushText, ofText, seqOut_ok_nil]
   | cons c t =>
@@ -44,13 +44,13 @@ theorem encChunk_group_congr (env : Env) (r : Record) (k : GroupKind) (cs cs' : 
 
 /-! the formatter table on the documented names -/
 
-theorem compile_leafName (k : LeafKind) (long : Bool) (p : Params) :
-    compile (.arg (leafName k long) [] p) = .leaf k.leaf p := by
+theorem compile_leafName (B : Build) (k : LeafKind) (long : Bool) (p : Params) :
+    compile B (.arg (leafName k long) [] p) = .leaf k.leaf p := by
   rw [compile_arg]
   cases k <;> cases long <;> rfl
 
-theorem compile_groupName (k : GroupKind) (long : Bool) (a : List Piece) (p : Params) :
-    compile (.arg (groupName k long) [a] p) = .group k (compileL a) p := by
+theorem compile_groupName (B : Build) (k : GroupKind) (long : Bool) (a : List Piece) (p : Params) :
+    compile B (.arg (groupName k long) [a] p) = .group k (compileL B a) p := by
   rw [compile_arg]
   cases k <;> cases long <;> rfl
 
@@ -67,45 +67,81 @@ theorem dateFormatOf_litPieces : ∀ (ls : List Lit) (pre : List Char),
     · simp [litPieces, he, dateFormatOf_litPieces ls (pre ++ [l.c]), litChars]
     · simp [litPieces, he, dateFormatOf_flush, dateFormatOf, dateFormatOf_litPieces ls [], litChars]
 
-theorem compile_date (long : Bool) (args : Option (List Lit × Option Bool)) (p : Params) :
-    compile (.arg (dateName long) (dateArgPieces args) p) =
-      .leaf (.time (dateRequest args).1 (dateRequest args).2) p := by
+theorem dateFormatArg_pieces (args : Option (List Lit × Option Bool)) :
+    dateFormatArg (dateArgPieces args) = (dateRequest args).1 := by
+  cases args with
+  | none => rfl
+  | some fz =>
+    obtain ⟨f, z⟩ := fz
+    cases z <;> simp [dateArgPieces, dateFormatArg, dateRequest, dateFormatOf_litPieces]
+
+theorem compile_date (B : Build) (long : Bool) (args : Option (List Lit × Option Bool))
+    (spec : Option FormatSpec) :
+    compile B (.arg (dateName long) (dateArgPieces args) (paramsOf spec)) = dateChunkOf B args spec := by
   rw [compile_arg]
   have hn : (dateName long = cs!"d" || dateName long = cs!"date") = true := by cases long <;> rfl
   rw [if_pos hn]
-  cases args with
-  | none => simp [dateArgPieces, dateChunk, dateRequest]
-  | some fz =>
-    obtain ⟨f, z⟩ := fz
-    cases z with
-    | none =>
-      simp [dateArgPieces, zonePieces, dateChunk, dateRequest, dateFormatOf_litPieces]
-    | some z =>
-      cases z <;>
-        simp [dateArgPieces, zonePieces, dateChunk, dateRequest, dateFormatOf_litPieces, timezoneOf, zoneName]
+  have hlen : ¬ (dateArgPieces args).length > 2 := by
+    cases args with
+    | none => simp [dateArgPieces]
+    | some fz => obtain ⟨f, z⟩ := fz; cases z <;> simp [dateArgPieces, zonePieces]
+  unfold dateChunk dateChunkOf
+  simp only [hlen, if_false, dateFormatArg_pieces]
+  split
+  · rfl
+  · cases args with
+    | none => simp [dateArgPieces, dateRequest]
+    | some fz =>
+      obtain ⟨f, z⟩ := fz
+      cases z with
+      | none => simp [dateArgPieces, zonePieces, dateRequest]
+      | some z => cases z <;> simp [dateArgPieces, zonePieces, dateRequest, timezoneOf, zoneName]
 
-theorem litPieces_plain : ∀ (ls : List Lit) (pre : List Char), ls.all plainLit = true →
-    litPieces pre ls = flushText (pre ++ litChars ls)
-  | [], pre, _ => by simp [litPieces, litChars]
-  | l :: ls, pre, h => by
-    simp only [List.all_cons, Bool.and_eq_true] at h
-    have he : l.esc = .plain := by
-      have := h.1
-      simp only [plainLit, Bool.and_eq_true, beq_iff_eq] at this
-      exact this.2
-    simp [litPieces, he, litPieces_plain ls (pre ++ [l.c]) h.2, litChars]
+theorem plainTextLoop_flush (inv pre : List Char) (X : List Piece) :
+    plainTextLoop inv (flushText pre ++ X) =
+      match plainTextLoop inv X with
+      | .ok rest => .ok (pre ++ rest)
+      | .error e => .error e := by
+  cases pre with
+  | nil => simp [flushText]; cases plainTextLoop inv X <;> rfl
+  | cons c t => simp [flushText, plainTextLoop]; cases plainTextLoop inv X <;> rfl
 
-theorem litPieces_plain_nonempty (ls : List Lit) (h : ls.all plainLit = true) (hne : ls.isEmpty = false) :
-    litPieces [] ls = [.text (litChars ls)] := by
-  rw [litPieces_plain ls [] h]
-  cases ls with
-  | nil => simp at hne
-  | cons l ls => simp [flushText, litChars]
+theorem plainTextLoop_litPieces (inv : List Char) : ∀ (ls : List Lit) (pre : List Char),
+    plainTextLoop inv (litPieces pre ls) = .ok (pre ++ litChars ls)
+  | [], pre => by
+    have := plainTextLoop_flush inv pre []
+    simpa [litPieces, litChars, plainTextLoop] using this
+  | l :: ls, pre => by
+    by_cases he : l.esc = .plain
+    · simp [litPieces, he, plainTextLoop_litPieces inv ls (pre ++ [l.c]), litChars]
+    · simp [litPieces, he, plainTextLoop_flush, plainTextLoop, plainTextLoop_litPieces inv ls [], litChars]
 
-theorem compile_mdc (long : Bool) (key : List Lit) (dflt : Option (List Lit)) (p : Params)
-    (hk : key.all plainLit = true) (hkne : key.isEmpty = false)
-    (hd : ∀ d, dflt = some d → d.all plainLit = true ∧ d.isEmpty = false) :
-    compile (.arg (mdcName long) (litPieces [] key :: dfltPieces dflt) p) =
+theorem litPieces_ne_nil : ∀ (ls : List Lit) (pre : List Char), (pre ≠ [] ∨ ls ≠ []) → litPieces pre ls ≠ []
+  | [], pre, h => by
+    rcases h with h | h
+    · cases pre with
+      | nil => exact absurd rfl h
+      | cons c t => simp [litPieces, flushText]
+    · exact absurd rfl h
+  | l :: ls, pre, _ => by
+    by_cases he : l.esc = .plain
+    · simp only [litPieces, he, if_true]
+      exact litPieces_ne_nil ls (pre ++ [l.c]) (Or.inl (by simp))
+    · simp [litPieces, he]
+
+/-- the repaired `plain_text` on the pieces of printed literal text: the whole text -/
+theorem plainTextOf_litPieces (inv : List Char) (ls : List Lit) (hne : ls.isEmpty = false) :
+    plainTextOf inv (litPieces [] ls) = .ok (litChars ls) := by
+  have hnn : litPieces [] ls ≠ [] := litPieces_ne_nil ls [] (Or.inr (by intro h; subst h; simp at hne))
+  unfold plainTextOf
+  split
+  · rename_i h; exact absurd h hnn
+  · simpa using plainTextLoop_litPieces inv ls []
+
+theorem compile_mdc (B : Build) (hB : B.mdcWhole = true) (long : Bool) (key : List Lit)
+    (dflt : Option (List Lit)) (p : Params) (hkne : key.isEmpty = false)
+    (hd : ∀ d, dflt = some d → d.isEmpty = false) :
+    compile B (.arg (mdcName long) (litPieces [] key :: dfltPieces dflt) p) =
       .leaf (.mdc (litChars key) (dfltChars dflt)) p := by
   rw [compile_arg]
   have h1 : (mdcName long = cs!"d" || mdcName long = cs!"date") = false := by cases long <;> rfl
@@ -113,61 +149,63 @@ theorem compile_mdc (long : Bool) (key : List Lit) (dflt : Option (List Lit)) (p
   have h3 : leafOfName (mdcName long) = none := by cases long <;> rfl
   have h4 : (mdcName long = cs!"X" || mdcName long = cs!"mdc") = true := by cases long <;> rfl
   simp only [h1, h2, h3, h4, if_true, Bool.false_eq_true, if_false]
-  rw [litPieces_plain_nonempty key hk hkne]
   cases dflt with
-  | none => simp [dfltPieces, mdcChunk, mdcTextOf, dfltChars]
+  | none => simp [dfltPieces, mdcChunk, mdcArgText, hB, plainTextOf_litPieces _ key hkne, dfltChars]
   | some d =>
-    obtain ⟨hd1, hd2⟩ := hd d rfl
-    simp [dfltPieces, mdcChunk, mdcTextOf, dfltChars, litPieces_plain_nonempty d hd1 hd2]
+    have hd2 := hd d rfl
+    simp [dfltPieces, mdcChunk, mdcArgText, hB, plainTextOf_litPieces _ key hkne,
+      plainTextOf_litPieces _ d hd2, dfltChars]
 
-theorem chunkOf_lit (l : Lit) : chunkOf (.lit l) = .text [l.c] := by rw [chunkOf]
-theorem chunkOf_leaf (k long spec) : chunkOf (.leaf k long spec) = .leaf k.leaf (paramsOf spec) := by
+theorem chunkOf_lit (B : Build) (l : Lit) : chunkOf B (.lit l) = .text [l.c] := by rw [chunkOf]
+theorem chunkOf_leaf (B : Build) (k long spec) :
+    chunkOf B (.leaf k long spec) = .leaf k.leaf (paramsOf spec) := by
   rw [chunkOf]
-theorem chunkOf_date (long args spec) :
-    chunkOf (.date long args spec) = .leaf (.time (dateRequest args).1 (dateRequest args).2) (paramsOf spec) := by
+theorem chunkOf_date (B : Build) (long args spec) :
+    chunkOf B (.date long args spec) = dateChunkOf B args spec := by
   rw [chunkOf]
-theorem chunkOf_mdc (long key dflt spec) :
-    chunkOf (.mdc long key dflt spec) = .leaf (.mdc (litChars key) (dfltChars dflt)) (paramsOf spec) := by
+theorem chunkOf_mdc (B : Build) (long key dflt spec) :
+    chunkOf B (.mdc long key dflt spec) = .leaf (.mdc (litChars key) (dfltChars dflt)) (paramsOf spec) := by
   rw [chunkOf]
-theorem chunkOf_group (k long body spec) :
-    chunkOf (.group k long body spec) = .group k (chunksOf body) (paramsOf spec) := by rw [chunkOf]
-theorem chunksOf_nil : chunksOf [] = [] := by rw [chunksOf]
-theorem chunksOf_cons (p : Pat) (ps : List Pat) : chunksOf (p :: ps) = chunkOf p :: chunksOf ps := by
+theorem chunkOf_group (B : Build) (k long body spec) :
+    chunkOf B (.group k long body spec) = .group k (chunksOf B body) (paramsOf spec) := by rw [chunkOf]
+theorem chunksOf_nil (B : Build) : chunksOf B [] = [] := by rw [chunksOf]
+theorem chunksOf_cons (B : Build) (p : Pat) (ps : List Pat) :
+    chunksOf B (p :: ps) = chunkOf B p :: chunksOf B ps := by
   rw [chunksOf]
 
 mutual
 /-- compiling the piece of an escape / formatter encodes like its direct translation -/
-theorem compile_pieceOf (bits : Nat) (env : Env) (r : Record) :
+theorem compile_pieceOf (B : Build) (hB : B.mdcWhole = true) (bits : Nat) (env : Env) (r : Record) :
     ∀ (p : Pat) (inArg : Bool), wfPat bits inArg p = true → plainChar p = none →
-      encChunk env r (compile (pieceOf p)) = encChunk env r (chunkOf p)
+      encChunk env r (compile B (pieceOf p)) = encChunk env r (chunkOf B p)
   | .lit l, _, _, _ => by rw [pieceOf_lit, compile_text, chunkOf_lit]
   | .leaf k long spec, _, _, _ => by rw [pieceOf_leaf, compile_leafName, chunkOf_leaf]
   | .date long args spec, _, _, _ => by rw [pieceOf_date, compile_date, chunkOf_date]
   | .mdc long key dflt spec, inArg, hwf, _ => by
     rw [wfPat_mdc] at hwf
     simp only [Bool.and_eq_true, Bool.not_eq_true'] at hwf
-    obtain ⟨⟨⟨hkne, hk⟩, hd⟩, _⟩ := hwf
-    rw [pieceOf_mdc, chunkOf_mdc, compile_mdc long key dflt _ hk hkne]
+    obtain ⟨⟨⟨hkne, _⟩, hd⟩, _⟩ := hwf
+    rw [pieceOf_mdc, chunkOf_mdc, compile_mdc B hB long key dflt _ hkne]
     intro d hdd
     subst hdd
     simp only [Bool.and_eq_true, Bool.not_eq_true'] at hd
-    exact ⟨hd.2, hd.1⟩
+    exact hd.1
   | .group k long body spec, inArg, hwf, _ => by
     rw [wfPat_group] at hwf
     simp only [Bool.and_eq_true] at hwf
     rw [pieceOf_group, compile_groupName, chunkOf_group]
     apply encChunk_group_congr
-    have := meaning_piecesOf bits env r body true hwf.1 []
+    have := meaning_piecesOf B hB bits env r body true hwf.1 []
     rw [this]
     simp [ofText, seqOut_ok_nil]
 /-- … and so do the pieces of a pattern list (pending text `pre` first) -/
-theorem meaning_piecesOf (bits : Nat) (env : Env) (r : Record) :
+theorem meaning_piecesOf (B : Build) (hB : B.mdcWhole = true) (bits : Nat) (env : Env) (r : Record) :
     ∀ (ps : List Pat) (inArg : Bool), wfPats bits inArg ps = true → ∀ pre : List Char,
-      encList env r (compileL (piecesOf pre ps)) =
-        seqOut (.ok (ofText pre)) (encList env r (chunksOf ps))
+      encList env r (compileL B (piecesOf pre ps)) =
+        seqOut (.ok (ofText pre)) (encList env r (chunksOf B ps))
   | [], _, _, pre => by
     rw [piecesOf_nil, chunksOf_nil]
-    have := flush_meaning env r pre []
+    have := flush_meaning B env r pre []
     simpa [compileL_nil] using this
   | p :: ps, inArg, hwf, pre => by
     rw [wfPats_cons] at hwf
@@ -178,12 +216,12 @@ theorem meaning_piecesOf (bits : Nat) (env : Env) (r : Record) :
       obtain ⟨l, hl, _, hc⟩ := plainChar_some hpc
       subst hl
       simp only []
-      rw [meaning_piecesOf bits env r ps inArg hwf.2 (pre ++ [c]), chunkOf_lit, encChunk_text, hc,
+      rw [meaning_piecesOf B hB bits env r ps inArg hwf.2 (pre ++ [c]), chunkOf_lit, encChunk_text, hc,
         ofText_append', seqOut_ok_append]
     | none =>
       simp only []
-      rw [flush_meaning, compileL_cons, encList_cons, compile_pieceOf bits env r p inArg hwf.1 hpc,
-        meaning_piecesOf bits env r ps inArg hwf.2 []]
+      rw [flush_meaning, compileL_cons, encList_cons, compile_pieceOf B hB bits env r p inArg hwf.1 hpc,
+        meaning_piecesOf B hB bits env r ps inArg hwf.2 []]
       simp [ofText, seqOut_ok_nil]
 end
 
